@@ -6,7 +6,7 @@
 //!   pcsim hashes <id> <n>            per-run log hashes (determinism self-test)
 //!
 //! exit 0 = held on everything explored, 1 = violation, 2 = harness error.
-#![allow(dead_code)]
+#![allow(dead_code, unused_imports, unused_mut, unused_variables)]
 mod cover;
 mod dynobj;
 mod json;
